@@ -126,6 +126,7 @@ func main() {
 // must be reported by X's own check, not only by a neighbour's. The pairs were read off the seeded changes that used to be
 // reported by a neighbouring property only (DESIGN §10).
 var sharedRules = map[string]map[string][]string{
+	"C01": {"C08": {"cache-coherence"}},
 	"C02": {"C05": {"memory-mutation-last"}},
 	"C03": {"C01": {"commit-nodes"}, "C08": {"cache-coherence"}},
 	"C04": {"C03": {"history-pairing", "every-entry"}, "C09": {"cache-invalidate", "reorg"}, "C06": {"pipeline-only"}},
